@@ -327,6 +327,49 @@ def backend_backlog_scenario(sid, fillers=10, small=5200):
     return {"id": sid, "role": "", "steps": steps}
 
 
+def slow_reader_quit_scenario(sid, bigsize=700000, nslow=1, quit=True, drains=3):
+    """A client that does not read a large reply, then pipelines requests whose node is slow (and QUIT), then reads: the
+    proxy's outbound buffer for the client runs empty while those requests are still in flight.  Every reply is still
+    owed, in order, and the connection is closed only after the reply to QUIT."""
+    req = lambda args, sl=("A",): {"k": "cmd", "slots": list(sl), "args": list(args), "dups": [-1] * len(sl)}
+    step = lambda stim, settle=True: {"stim": stim, "settle": settle, "noIter": False}
+    big = resp_bulk(bytes((i * 7 + 3) % 256 for i in range(bigsize)))
+    tail = [req(["GET", "@0"], ("B",)) for _ in range(nslow)] + ([{"k": "quit", "slots": [], "args": [], "dups": []}] if quit else [])
+    steps = [step([_st(op="pause", c="c1"), _st(op="send", c="c1", reqs=[req(["GET", "@0"])])]),
+             step([_st(op="answer", n="n1", kind="raw", hex=big.hex())]), step([_st(op="sleep", count=20)]),
+             step([_st(op="send", c="c1", reqs=tail)]),
+             step([_st(op="resume", c="c1")])]
+    # the client reads what has arrived; the proxy's EPOLLOUT handler pushes the next part; and so on
+    steps += [step([_st(op="readsome", c="c1", count=bigsize // 2 + 1000)]) for _ in range(drains + 3)]
+    for k in range(nslow):
+        steps.append(step([_st(op="answer", n="n2", kind="raw", hex=resp_bulk(b"slow-%d" % k).hex())]))
+    steps.append(step([]))
+    steps.append(step([_st(op="answer", n=n, kind="ok", count=3) for n in ("n1", "n2")]))
+    return {"id": sid, "role": "", "steps": steps}
+
+
+def client_backlog_scenario(sid, bigsize=1000000, small=2300):
+    """A client that does not read: one large reply fills the kernel buffers and the static part of the proxy's outbound
+    buffer for it, then more than iovMax = 1024 small replies queue behind it (one buffer segment each); then the client
+    reads everything.  (Validated by OrderTrace: one reply per request, in order, none missing.)"""
+    step = lambda stim, settle=True: {"stim": stim, "settle": settle, "noIter": False}
+    big = resp_bulk(bytes((i * 5 + 9) % 256 for i in range(bigsize)))
+    steps = [step([_st(op="pause", c="c1"), _st(op="send", c="c1", reqs=[{"k": "cmd", "slots": ["A"], "args": ["GET", "@0"], "dups": [-1]}])]),
+             step([_st(op="answer", n="n1", kind="raw", hex=big.hex())]), step([_st(op="sleep", count=20)])]
+    slots = ["A", "B", "C"]
+    for b in range(0, small, 100):
+        n = min(100, small - b)
+        steps.append(step([_st(op="send", c="c1", reqs=[{"k": "get", "slots": [slots[(b // 100 + x) % 3]], "args": [], "dups": [-1]} for x in range(n)])]))
+        steps.append(step([_st(op="answer", n=nn, kind="ok", count=n) for nn in ("n1", "n2", "n3")]))
+    steps.append(step([_st(op="resume", c="c1")]))
+    steps += [step([_st(op="readsome", c="c1", count=bigsize // 2 + 1000)]) for _ in range(6)]
+    # the client keeps sending while it reads: it always has something outstanding
+    steps.append(step([_st(op="send", c="c1", reqs=[{"k": "get", "slots": ["B"], "args": [], "dups": [-1]}])]))
+    steps.append(step([_st(op="answer", n=nn, kind="ok", count=3) for nn in ("n1", "n2", "n3")]))
+    steps += [step([]) for _ in range(2)]
+    return {"id": sid, "role": "", "steps": steps}
+
+
 BP_CFG = {"masters": 3, "mode": "step", "rawLog": True, "smallBuf": True}
 BP_CFG_MID = {"masters": 3, "mode": "step", "rawLog": True, "sockBuf": 65536}
 
